@@ -19,6 +19,7 @@ def check(m, run):
     fi = m.func('operations.insert_knot')
     from .. import skel_drivers as _sd
     _sd.kir3(m, run, ('insert',))        # A5.1 on exact rational knots and symbolic control points equals repeated single insertions
+    oc.shared_dependencies(m, run)
     oc.block_rules(m, run, fi, 'insert')
     oc.wrapper_rules(m, run, 'insert_knot', '_insert_knot_func')
     oc.optional_coordinate_rule(m, run)
